@@ -58,11 +58,15 @@ def compare_pipeline(p, g):
         return [("missing", "*", "no result line")]
     if g["final"].startswith("CRASH"):
         return [("crash", "*", "the process died (%s) while running this program" % g["final"])]
+    # what a step computes is C02 (C12 for lazy pipelines); when an executor rejects a step, "the step sees StopError instead
+    # of its input, value callbacks are skipped, and the rest of the chain still completes" is C05's statement as well
+    rejecting = pr["rej"]["e1"] < 9 or pr["rej"]["e2"] < 9 or pr.get("start") in ("drop", "to_future_e2", "detach_e2")
+    sem = (("C12",) if lazy else ("C02",)) + (("C05",) if rejecting else ())
     if g["final"] != o["final"]:
-        out.append(("final", "C12" if lazy else "C02", "final result %s, expected %s" % (g["final"], o["final"])))
+        out.append(("final", sem, "final result %s, expected %s" % (g["final"], o["final"])))
     inv = ints(g.get("invoked", ""))
     if inv != o["invoked"]:
-        out.append(("invoked", "C12" if lazy else "C02", "callbacks invoked %s, expected %s" % (inv, o["invoked"])))
+        out.append(("invoked", sem, "callbacks invoked %s, expected %s" % (inv, o["invoked"])))
     ran = [x for x in g.get("ran", "").split(",") if x != ""]
     if len(ran) == len(o["ran"]):
         for k, (a, b) in enumerate(zip(ran, o["ran"])):
